@@ -371,3 +371,97 @@ class struct_proxy:
                 v = v - ite(bs[-1] >= 128, lambda: (1 << (8 * n)), lambda: 0)
             out.append(v)
         return tuple(out)
+
+
+# ---------------------------------------------------------------- sequences of integer pairs (interval lists)
+
+class SymPairSeq:
+    """A tuple of (lo, hi) integer pairs of SYMBOLIC length, encoded as two z3 arrays and a length
+    (quantified obligations over z3's Seq sort stay `unknown`; over arrays they are decided).
+    Supports len(), indexing with a symbolic index (IndexError iff out of range), truthiness, iteration
+    (an iterator with a symbolic position, havocked at cut loops)."""
+
+    def __init__(self, name):
+        c = ctx()
+        self.lo = z3.Array(name + ".lo", z3.IntSort(), z3.IntSort())
+        self.hi = z3.Array(name + ".hi", z3.IntSort(), z3.IntSort())
+        self.n = z3.Int(name + ".n")
+        c.assume(self.n >= 0)
+
+    def _sym_len(self):
+        return mk(self.n)
+
+    def __len__(self):
+        raise Undecided("len() of a symbolic pair sequence through the C slot (use the patched len)")
+
+    def __bool__(self):
+        return ctx().decide(self.n > 0)
+
+    def __getitem__(self, i):
+        if isinstance(i, slice):
+            raise Undecided("slice of a symbolic pair sequence")
+        ei = as_z3_int(i)
+        c = ctx()
+        if c.decide(ei < 0):
+            ei = ei + self.n
+        if not c.decide(z3.And(ei >= 0, ei < self.n)):
+            raise IndexError("tuple index out of range")
+        return (mk(z3.Select(self.lo, ei)), mk(z3.Select(self.hi, ei)))
+
+    def __iter__(self):
+        return SymPairIter(self)
+
+
+class SymPairIter:
+    def __init__(self, seq):
+        self.seq = seq
+        self.pos = 0
+
+    def __iter__(self):
+        return self
+
+    def __next__(self):
+        c = ctx()
+        p = as_z3_int(self.pos)
+        if not c.decide(p < self.seq.n):
+            raise StopIteration
+        item = (mk(z3.Select(self.seq.lo, p)), mk(z3.Select(self.seq.hi, p)))
+        self.pos = mk(z3.simplify(p + 1))
+        return item
+
+
+def havoc_pair_iter(it, c, name):
+    if not isinstance(it, SymPairIter):
+        raise Undecided("loop no longer iterates over the range list")
+    p = z3.Int(c.fresh_name(name + ".pos"))
+    c.assume(z3.And(p >= 0, p <= it.seq.n))
+    it.pos = SymInt(p)
+    return it
+
+
+class bisect_proxy:
+    """bisect.bisect / bisect_right on a SymPairSeq with a 1-tuple key (v,) (assumed contract of the
+    C implementation, T4): precondition = the sequence is sorted by first component (obligation at the call);
+    result i with 0 <= i <= n, every pair before i has lo < v, every pair from i on has lo >= v.
+    (A pair (lo, hi) compares below the 1-tuple (v,) iff lo < v: on lo == v the longer tuple is greater.)"""
+    import bisect as _real
+
+    @staticmethod
+    def bisect(a, x, *rest):
+        if not isinstance(a, SymPairSeq):
+            return bisect_proxy._real.bisect(a, x, *rest)
+        if rest or not (isinstance(x, tuple) and len(x) == 1):
+            raise Undecided("bisect on a symbolic pair sequence with this key shape is not modelled")
+        c = ctx()
+        v = as_z3_int(x[0])
+        p, q = z3.Ints("bs!p bs!q")
+        c.oblige("call-pre@bisect: sequence sorted by first component",
+                 z3.ForAll([p, q], z3.Implies(z3.And(p >= 0, p < q, q < a.n), z3.Select(a.lo, p) <= z3.Select(a.lo, q))))
+        i = z3.Int(c.fresh_name("bisect"))
+        j = z3.Int("bs!j")
+        c.assume(z3.And(i >= 0, i <= a.n))
+        c.assume(z3.ForAll([j], z3.Implies(z3.And(j >= 0, j < i), z3.Select(a.lo, j) < v)))
+        c.assume(z3.ForAll([j], z3.Implies(z3.And(j >= i, j < a.n), z3.Select(a.lo, j) >= v)))
+        return SymInt(i)
+
+    bisect_right = bisect
